@@ -189,6 +189,7 @@ func storePrefill(p prefill) error {
 			return err
 		}
 		w.UpdateMeta()
+		w.Meta().Created -= 3600 // an old record: later changes are updates, not creations
 		if p.Form == "secret" {
 			w.Meta().MakeSecret()
 		}
@@ -220,6 +221,8 @@ func storePrefill(p prefill) error {
 	case "typed":
 		r := &typedRecord{Name: "typed", N: 7, F: 1.5, B: true, Tags: []string{"a", "b"}, M: map[string]string{"k": "v"}}
 		r.SetKey(p.Key)
+		r.UpdateMeta()
+		r.Meta().Created -= 3600
 		return internalDB.Put(r)
 	}
 	return fmt.Errorf("unknown prefill form %q", p.Form)
